@@ -20,8 +20,8 @@ from engine.universe import SpecUnavailable
 from engine import contracts as CT
 
 LEVEL = 'proof'
-SCENS_QUICK = ['onshell', 'fluid', 'freeT', 'shift_y', 'noshift', 'default']
-SCENS_THOROUGH = ['onshell', 'onshell_comp', 'onshell_fluidtetrad', 'fluid', 'fluid_comp', 'freeT', 'shift_y',
+SCENS_QUICK = ['onshell', 'onshell_vac', 'fluid', 'fluid_rho0zero', 'freeT', 'shift_y', 'noshift', 'default']
+SCENS_THOROUGH = ['onshell', 'onshell_vac', 'onshell_comp', 'onshell_fluidtetrad', 'fluid', 'fluid_comp', 'fluid_rho0zero', 'fluid_atrest', 'freeT', 'shift_y',
                   'noshift', 'default']
 NO_CONTRACT = {
     'Psi4_lm': 'grid-extent dependent (interpolation onto spheres): decided in C20, not pointwise',
